@@ -236,7 +236,11 @@ func runLocks(r *hx.Rec, property string) {
 			// lock files this process removed itself (name -> true)
 			unlockedClean      bool
 			lockRemovedByOther bool
-			staleLockRemoved   bool // another process removed this holder's lock file when it was stale for that process
+			// a lock-file operation of this holder was in flight when its newest lock file passed the
+			// refreshability deadline (22.5 min on the holder's clock): the situation of the recorded finding
+			// "a stalled refresh delays the forced stop"
+			stalledAtDeadline bool
+			staleLockRemoved  bool // another process removed this holder's lock file when it was stale for that process
 			staleSig           string // signature of the first stops-before-stale episode of the current belief
 		}
 		var mu sync.Mutex
@@ -394,8 +398,9 @@ func runLocks(r *hx.Rec, property string) {
 			if li, ok := newest(holder); ok && !inStandby(holder) {
 				if stale, who := staleFor(holder, li); stale {
 					sig := "modification-after-stale"
-					if holder.cl.InFlightLock > 0 {
-						// a lock-file operation of the holder (a stalled refresh) is in flight at this instant
+					if holder.cl.InFlightLock > 0 || holder.stalledAtDeadline {
+						// a lock-file operation of the holder (a stalled refresh) is in flight at this instant,
+						// or was when the refreshability deadline passed
 						sig = "modification-after-stale-while-refresh-in-flight"
 					}
 					// one episode keeps the signature it started with
@@ -410,6 +415,13 @@ func runLocks(r *hx.Rec, property string) {
 		s.AddMonitor(func() {
 			mu.Lock()
 			defer mu.Unlock()
+			for _, p := range procs {
+				if p.belief.active && p.belief.ctx.Err() == nil && p.cl.InFlightLock > 0 && !p.stalledAtDeadline {
+					if li, ok := newest(p); ok && time.Now().Add(p.proc.ClockOffset).Sub(li.Time) >= 22*time.Minute+30*time.Second {
+						p.stalledAtDeadline = true
+					}
+				}
+			}
 			// C12: conflicting beliefs
 			for i, p := range procs {
 				if !p.belief.active || p.belief.ctx.Err() != nil || p.cl.Dead || inStandby(p) {
@@ -421,7 +433,7 @@ func runLocks(r *hx.Rec, property string) {
 					}
 					if p.belief.excl || q.belief.excl {
 						sig := "conflicting-locks"
-						if p.cl.InFlightLock > 0 || q.cl.InFlightLock > 0 {
+						if p.cl.InFlightLock > 0 || q.cl.InFlightLock > 0 || p.stalledAtDeadline || q.stalledAtDeadline {
 							sig = "conflicting-locks-while-refresh-in-flight"
 						}
 						// one episode (pair of overlapping beliefs) keeps the signature it started with
@@ -478,6 +490,7 @@ func runLocks(r *hx.Rec, property string) {
 					ps.belief = kBelief{active: true, excl: pl.Excl, ctx: lctx}
 					ps.lockRemovedByOther = false
 					ps.staleLockRemoved = false
+					ps.stalledAtDeadline = false
 					ps.staleSig = ""
 					mu.Unlock()
 					// work while the lock context is live
